@@ -5,8 +5,8 @@
 #include <stdint.h>
 #include <string.h>
 
-enum { GV_NOISE = 0, GV_FLAT, GV_GRAD, GV_EXTREME, GV_EDGES, GV_SCREEN, GV_MOTION, GV_NKINDS };
-static const char *gv_names[] = {"noise", "flat", "grad", "extreme", "edges", "screen", "motion"};
+enum { GV_NOISE = 0, GV_FLAT, GV_GRAD, GV_EXTREME, GV_EDGES, GV_SCREEN, GV_MOTION, GV_LOPSIDED, GV_NKINDS };
+static const char *gv_names[] = {"noise", "flat", "grad", "extreme", "edges", "screen", "motion", "lopsided"};
 
 static inline int gv_kind(const char *s) {
     for (int i = 0; i < GV_NKINDS; i++)
@@ -24,6 +24,16 @@ static inline uint32_t gv_hash(uint32_t a, uint32_t b, uint32_t c, uint32_t d) {
     h *= 0x297A2D39u;
     h ^= h >> 15;
     return h;
+}
+
+/* integer sine: argument in 1/256 turns, result -127..127 */
+static inline int gv_isin(int t) {
+    static const signed char q[65] = {0, 3, 6, 9, 12, 16, 19, 22, 25, 28, 31, 34, 37, 40, 43, 46, 49, 51, 54, 57, 60, 63, 65, 68, 71, 73, 76, 78, 81, 83, 85, 88, 90, 92, 94, 96, 98, 100, 102, 104, 106, 107, 109, 111, 112, 113, 115, 116, 117, 118, 120, 121, 122, 122, 123, 124, 125, 125, 126, 126, 126, 127, 127, 127, 127};
+    t &= 255;
+    int neg = t >= 128;
+    t &= 127;
+    int v = t <= 64 ? q[t] : q[128 - t];
+    return neg ? -v : v;
 }
 
 /* sample of plane p (0=Y,1=U,2=V) at (x,y) of frame k; plane dims are the plane's own */
@@ -62,6 +72,19 @@ static inline uint16_t gv_sample(int kind, uint32_t seed, int bits, int k, int p
         int mx = (k * 5) % (pw > 8 ? pw - 8 : 1), my = (k * 3) % (ph > 8 ? ph - 8 : 1);
         if (x >= mx && x < mx + 6 && y >= my && y < my + 6)
             v = (p ? 90 : 250) << (bits - 8);
+        break;
+    }
+    case GV_LOPSIDED: { /* diagonal sinusoidal stripes whose direction and phase change every frame (directional intra
+                         * prediction across superblock rows) + weak noise in the left third, strong noise elsewhere:
+                         * tile columns of very different decode cost */
+        int a16 = 72 + gv_isin(k * 53) * 46 / 127, b16 = 59 + gv_isin(k * 37 + 64) * 52 / 127; /* 1/4096 turn per pixel */
+        int ph  = k * 85;
+        int s1  = gv_isin(((a16 * x + b16 * y) >> 4) + ph), s2 = gv_isin(((33 * x - 85 * y) >> 4) + k * 60);
+        int amp = (3 * x < pw) ? 2 : 24;
+        int n   = (int)(gv_hash(seed, (uint32_t)k * 3u + (uint32_t)p, (uint32_t)x, (uint32_t)y) % (uint32_t)(2 * amp + 1)) - amp;
+        int v8  = p ? 128 + gv_isin(((p == 1 ? 52 : 39) * x + (p == 1 ? 33 : -46) * y) / 16 + ph + (p == 1 ? 0 : 64)) * 50 / 127
+                    : 128 + s1 * 55 / 127 + s2 * 35 / 127 + n;
+        v       = v8 * (1 << (bits - 8));
         break;
     }
     default: { /* GV_MOTION: textured background translating + noise, exercises inter tools */
